@@ -272,10 +272,10 @@ class Dispatcher:
                 raise NoSuchModuleError(f'Module {modulename!r} does not exist')
             moduleobj = self.secnode.get_module(modulename)
             if exportedname is not None:
-                pname = moduleobj.accessiblename2attr.get(exportedname, True)
-                if pname and pname not in moduleobj.accessibles:
-                    # what if we try to subscribe a command here ???
-                    raise NoSuchParameterError(f'Module {modulename!r} has no parameter {pname!r}')
+                pname = moduleobj.accessiblename2attr.get(exportedname)
+                if pname not in moduleobj.parameters:
+                    # unknown name or a command: nothing to subscribe to
+                    raise NoSuchParameterError(f'Module {modulename!r} has no parameter {exportedname!r}')
                 modules = [(modulename, pname)]
             else:
                 modules = [(modulename, None)]
